@@ -233,15 +233,24 @@ def evaluate(ctx, text, count=True):
             lost = [x for x in seq if x not in seq2]
             if lost:
                 # where did the printer put the comment that the next parse did not capture?
+                # (the comment's text may also occur inside a string or regex of the output: take the
+                # positions the reference scanner logs as comments when it can read the output)
+                starts = None
+                try:
+                    starts = set(c.start for c in refjs.parse(out).comments)
+                except (refjs.RefSyntaxError, RecursionError):
+                    pass
+                nxt = set()
                 at = out.find(lost[0])
-                nxt = ''
-                if at >= 0:
-                    try:
-                        q, _, _ = refjs.Scanner(out).skip(at + len(lost[0]))
-                        nxt = out[q:q + 1]
-                    except refjs.RefSyntaxError:
-                        pass
-                if nxt == '/':
+                while at >= 0:
+                    if starts is None or at in starts:
+                        try:
+                            q, _, _ = refjs.Scanner(out).skip(at + len(lost[0]))
+                            nxt.add(out[q:q + 1])
+                        except refjs.RefSyntaxError:
+                            pass
+                    at = out.find(lost[0], at + 1)
+                if '/' in nxt:
                     mech += ':lost_before_regex'
                 else:
                     mech += ':lost_from_' + holders.get(lost[0], '?')
